@@ -111,6 +111,14 @@ pub fn judge(ctx: &mut Ctx, c: &Case) {
         let r = vs.iter().map(|v| ang(cc, *v)).fold(0.0, f64::max) * (1.0 + 1e-9) + 1e-15;
         if r < 0.3 { cones.push((cc, r)); break; } } }
   }
+  // hostile call history (one polygon in 6): the same thread first covers a sibling polygon (same vertices in reverse order, or rotated
+  // list, or shifted by a small amount, or at the next depth)
+  if c.gu("s") % 6 == 1 {
+    let mut sib = poly.clone(); let mut d2 = depth;
+    match (c.gu("s") / 6) % 4 { 0 => sib.reverse(), 1 => sib.rotate_left(1), 2 => { for p in sib.iter_mut() { p.0 += 0.37 * rmax; } } _ => { d2 = if depth > 0 { depth - 1 } else { 1 }; } }
+    let _ = catch(|| nested::polygon_coverage(d2, &sib, c.gu("s") % 2 == 0));
+    ctx.hard("polygon:judged-right-after-a-sibling-call", &fp);
+  }
   for &exact in [false, true].iter() {
     let ce = c.clone().b("exact", exact);
     ctx.eval();
